@@ -182,6 +182,9 @@ impl Atom {
                         }
                     }
                     saw_backslash = c == '\\';
+                    if saw_backslash {
+                        continue;
+                    }
                     match case {
                         #[cfg(feature = "unicode-casefold")]
                         CaseMatching::Ignore => c = chars::to_lower_case(c),
@@ -199,6 +202,9 @@ impl Atom {
                         Normalization::Never => (),
                     }
                     needle_.push(c);
+                }
+                if saw_backslash {
+                    needle_.push('\\');
                 }
             } else {
                 let chars = chars::graphemes(needle).map(|mut c| {
